@@ -1070,6 +1070,71 @@ def iter_next_value(ev, st, itv, elem_signed=False, depth=0):
         if ob.discr == 0:
             return NONE, PrimV("zip", (na, nb))
         return some(Struct((oa.payloads[1][0], ob.payloads[1][0]))), PrimV("zip", (na, nb))
+    if isinstance(itv, PrimV) and itv.kind == "chunks":
+        r, size, pos, exact = itv.data
+        s0, n = win_const(r)
+        rem = n - pos
+        if rem >= size:
+            return some(Ref(r.obj, r.path, (s0 + pos, size), r.mut)), PrimV("chunks", (r, size, pos + size, exact))
+        if rem > 0 and not exact:
+            return some(Ref(r.obj, r.path, (s0 + pos, rem), r.mut)), PrimV("chunks", (r, size, n, exact))
+        return NONE, itv
+    if isinstance(itv, PrimV) and itv.kind == "enumerate":
+        inner, idx = itv.data
+        opt, new = iter_next_value(ev, st, inner, elem_signed, depth)
+        if not isinstance(opt.discr, int):
+            raise Unsupported("enumerate over symbolic iterator")
+        if opt.discr == 0:
+            return NONE, PrimV("enumerate", (new, idx))
+        return some(Struct((T.const(idx, 64), opt.payloads[1][0]))), PrimV("enumerate", (new, idx + 1))
+    if isinstance(itv, PrimV) and itv.kind == "take":
+        inner, left = itv.data
+        if left <= 0:
+            return NONE, itv
+        opt, new = iter_next_value(ev, st, inner, elem_signed, depth)
+        return opt, PrimV("take", (new, left - 1))
+    if isinstance(itv, PrimV) and itv.kind == "skip":
+        inner, left = itv.data
+        while left > 0:
+            opt, inner = iter_next_value(ev, st, inner, elem_signed, depth)
+            left -= 1
+            if isinstance(opt.discr, int) and opt.discr == 0:
+                return NONE, PrimV("skip", (inner, 0))
+        return iter_next_value(ev, st, inner, elem_signed, depth)[0], PrimV("skip", (iter_next_value(ev, st, inner, elem_signed, depth)[1], 0))
+    if isinstance(itv, PrimV) and itv.kind == "copied":
+        opt, new = iter_next_value(ev, st, itv.data[0], elem_signed, depth)
+        if isinstance(opt.discr, int) and opt.discr == 1:
+            return some(deref(ev, st, opt.payloads[1][0])), PrimV("copied", (new,))
+        if isinstance(opt.discr, int):
+            return NONE, PrimV("copied", (new,))
+        raise Unsupported("copied over symbolic iterator")
+    if isinstance(itv, PrimV) and itv.kind == "rev":
+        inner = itv.data[0]
+        if isinstance(inner, PrimV) and inner.kind == "sliceiter":
+            r, pos, mut = inner.data
+            s0, n = win_const(r)
+            back = itv.data[1]
+            if pos + back < n:
+                i = n - 1 - back
+                return some(Ref(r.obj, r.path + (("i", s0 + i),), None, mut)), PrimV("rev", (inner, back + 1))
+            return NONE, itv
+        if isinstance(inner, Struct) and len(inner.fields) == 2 and all(isinstance(f, T.T) and f.op == "const" for f in inner.fields):
+            a, b = inner.fields
+            if (T.slt(a, b) if elem_signed else T.ult(a, b)) is T.TRUE:
+                nb = T.sub(b, T.const(1, b.w))
+                return some(nb), PrimV("rev", (Struct((a, nb)), 0))
+            return NONE, itv
+        raise Unsupported("rev of %r" % (inner,))
+    if isinstance(itv, PrimV) and itv.kind == "step_by":
+        inner, step, first = itv.data
+        if isinstance(inner, Struct) and len(inner.fields) == 2:
+            a, b = inner.fields
+            lt = ev.lt(st, a, b, elem_signed)
+            if lt is T.TRUE:
+                return some(a), PrimV("step_by", (Struct((T.add(a, T.const(step, a.w)), b)), step, False))
+            if lt is T.FALSE:
+                return NONE, itv
+        raise Unsupported("step_by over %r" % (inner,))
     raise Unsupported("next() of %r" % (itv,))
 
 
@@ -1090,7 +1155,18 @@ def _range_signed(ev, ctx):
       "<core::slice::IterMut<'a, T> as core::iter::Iterator>::next",
       "<core::iter::Map<I, F> as core::iter::Iterator>::next",
       "<core::iter::Zip<A, B> as core::iter::Iterator>::next",
-      "<&mut I as core::iter::Iterator>::next")
+      "<&mut I as core::iter::Iterator>::next",
+      "<core::slice::ChunksExact<'a, T> as core::iter::Iterator>::next",
+      "<core::slice::ChunksExactMut<'a, T> as core::iter::Iterator>::next",
+      "<core::slice::Chunks<'a, T> as core::iter::Iterator>::next",
+      "<core::slice::ChunksMut<'a, T> as core::iter::Iterator>::next",
+      "<core::iter::Enumerate<I> as core::iter::Iterator>::next",
+      "<core::iter::Take<I> as core::iter::Iterator>::next",
+      "<core::iter::Skip<I> as core::iter::Iterator>::next",
+      "<core::iter::Copied<I> as core::iter::Iterator>::next",
+      "<core::iter::Cloned<I> as core::iter::Iterator>::next",
+      "<core::iter::Rev<I> as core::iter::Iterator>::next",
+      "<core::iter::StepBy<I> as core::iter::Iterator>::next")
 def p_next(ev, st, ctx):
     r = ctx.args[0]
     itv = ev.load(st, r)
@@ -1115,6 +1191,136 @@ def p_zip(ev, st, ctx):
     if isinstance(b, Ref) and b.win is not None:
         b = PrimV("sliceiter", (b, 0, b.mut))
     return PrimV("zip", (ctx.args[0], b))
+
+
+def _chunks(exact):
+    def h(ev, st, ctx):
+        r = as_slice(ev, st, ctx.args[0])
+        size = ctx.args[1]
+        if size.op != "const":
+            raise Unsupported("chunks with symbolic size")
+        precondition(ev, st, ctx, "chunk_size != 0", T.TRUE if size.aux else T.FALSE)
+        return PrimV("chunks", (_normalize_ref(r), size.aux, 0, exact))
+    return h
+
+
+prim("core::slice::<impl [T]>::chunks_exact", "core::slice::<impl [T]>::chunks_exact_mut")(_chunks(True))
+prim("core::slice::<impl [T]>::chunks", "core::slice::<impl [T]>::chunks_mut")(_chunks(False))
+
+
+@prim("core::slice::ChunksExactMut::<'a, T>::into_remainder", "core::slice::ChunksExact::<'a, T>::remainder")
+def p_chunks_remainder(ev, st, ctx):
+    it = deref(ev, st, ctx.args[0]) if isinstance(ctx.args[0], Ref) else ctx.args[0]
+    r, size, pos, exact = it.data
+    s0, n = win_const(r)
+    full = (n // size) * size
+    return Ref(r.obj, r.path, (s0 + full, n - full), r.mut)
+
+
+@prim("core::iter::Iterator::enumerate")
+def p_enumerate(ev, st, ctx):
+    return PrimV("enumerate", (ctx.args[0], 0))
+
+
+@prim("core::iter::Iterator::take")
+def p_take(ev, st, ctx):
+    n = ctx.args[1]
+    if n.op != "const":
+        raise Unsupported("take with symbolic count")
+    return PrimV("take", (ctx.args[0], n.aux))
+
+
+@prim("core::iter::Iterator::skip")
+def p_skip(ev, st, ctx):
+    n = ctx.args[1]
+    if n.op != "const":
+        raise Unsupported("skip with symbolic count")
+    return PrimV("skip", (ctx.args[0], n.aux))
+
+
+@prim("core::iter::Iterator::copied", "core::iter::Iterator::cloned")
+def p_copied(ev, st, ctx):
+    return PrimV("copied", (ctx.args[0],))
+
+
+@prim("core::iter::Iterator::rev")
+def p_rev(ev, st, ctx):
+    return PrimV("rev", (ctx.args[0], 0))
+
+
+@prim("core::iter::Iterator::step_by")
+def p_step_by(ev, st, ctx):
+    n = ctx.args[1]
+    if n.op != "const" or n.aux == 0:
+        raise Unsupported("step_by with symbolic or zero step")
+    return PrimV("step_by", (ctx.args[0], n.aux, True))
+
+
+def _drain(ev, st, itv, depth, fn):
+    for _ in range(200000):
+        opt, itv = iter_next_value(ev, st, itv, False, depth)
+        if not isinstance(opt.discr, int):
+            raise Unsupported("iteration over symbolic iterator")
+        if opt.discr == 0:
+            return itv
+        if fn(opt.payloads[1][0]) is False:
+            return itv
+    raise Unsupported("iterator does not end")
+
+
+@prim("core::iter::Iterator::any", "<core::slice::Iter<'a, T> as core::iter::Iterator>::any")
+def p_any(ev, st, ctx):
+    r = ctx.args[0]
+    clo = ctx.args[1]
+    itv = ev.load(st, r) if isinstance(r, Ref) else r
+    conds = []
+    itv = _drain(ev, st, itv, ctx.fr.depth, lambda x: conds.append(call_closure(ev, st, clo, [x], ctx.fr.depth)))
+    if isinstance(r, Ref):
+        ev.store(st, r, itv)
+    return T.or1(conds)
+
+
+@prim("core::iter::Iterator::fold", "<core::slice::Iter<'a, T> as core::iter::Iterator>::fold")
+def p_fold(ev, st, ctx):
+    itv, acc, clo = ctx.args
+    box = [acc]
+    _drain(ev, st, itv, ctx.fr.depth, lambda x: box.__setitem__(0, call_closure(ev, st, clo, [box[0], x], ctx.fr.depth)))
+    return box[0]
+
+
+@prim("core::iter::Iterator::count", "core::iter::ExactSizeIterator::len")
+def p_count(ev, st, ctx):
+    itv = ctx.args[0]
+    if isinstance(itv, Ref):
+        itv = ev.load(st, itv)
+    n = [0]
+    _drain(ev, st, itv, ctx.fr.depth, lambda x: n.__setitem__(0, n[0] + 1))
+    return T.const(n[0], 64)
+
+
+@prim("<T as core::convert::TryInto<U>>::try_into", "core::array::<impl core::convert::TryFrom<&'a [T]> for &'a [T; N]>::try_from",
+      "core::array::<impl core::convert::TryFrom<&[T]> for [T; N]>::try_from")
+def p_try_into(ev, st, ctx):
+    """slice -> array (by value or by reference), Ok iff the lengths agree"""
+    a = ctx.args[0]
+    dt = ev.tys[ctx.dest_ty]
+    if not (isinstance(a, Ref) and a.win is not None and dt["k"] == "adt" and dt["def"].endswith("Result")):
+        raise Unsupported("try_into of %r" % (a,))
+    okty = ev.tys[dt["variants"][0]["fields"][0]["ty"]]
+    want = okty
+    byref = False
+    if okty["k"] == "ref":
+        want = ev.tys[okty["to"]]
+        byref = True
+    if want["k"] != "array":
+        raise Unsupported("try_into to %s" % okty["s"])
+    s0, n = win_const(a)
+    if n != want["len"]:
+        return err(OpaqueV(None, "TryFromSliceError"))
+    if byref:
+        arr = slice_value(ev, st, a)
+        return ok(Ref(st.alloc(arr, "arrview"), ())) if s0 != 0 or True else ok(a)
+    return ok(slice_value(ev, st, a))
 
 
 @prim("<core::slice::Iter<'a, T> as core::iter::Iterator>::all", "core::iter::Iterator::all")
